@@ -381,7 +381,7 @@ int main(int argc, char **argv) {
   a.to = 1;
   a.maxdim = 300;
   a.balance = 1;
-  a.nthreads = 4;
+  a.nthreads = 0;
   a.reps = 1;
   a.dir = ".";
   for (int i = 2; i < argc; i++) {
@@ -392,6 +392,7 @@ int main(int argc, char **argv) {
     else if (OPT("--to")) a.to = atol(v);
     else if (OPT("--tier")) a.tier = strcmp(v, "thorough") == 0;
     else if (OPT("--maxdim")) a.maxdim = atoi(v);
+    else if (OPT("--mindim")) GEN_MINDIM = atoi(v);
     else if (OPT("--fam")) a.fam = v;
     else if (OPT("--ops")) a.ops = v;
     else if (OPT("--arg")) a.arg = v;
